@@ -350,3 +350,61 @@ fn c04_witness() {
     g.update_edge(mi(a), mi(1), 3);
     assert!(!g.has_edge(mi(0), mi(1)), "witness: reachable and falsifiable");
 }
+
+// ------------------------------------------------------------------------------------------------ remove_node / id reuse
+fn sc_remove_node<Ty: EdgeType, const G: usize>() {
+    let mut g = MG::<Ty>::with_capacity(3);
+    let mut m = Simple::new(Ty::is_directed());
+    let mut i = 0;
+    while i < 3 {
+        g.add_node(i as u8);
+        m.node[i] = true;
+        i += 1;
+    }
+    g.update_edge(mi(0), mi(1), 7);
+    m.set(0, 1, Some(7));
+    g.update_edge(mi(1), mi(1), 8);
+    m.set(1, 1, Some(8));
+    g.update_edge(mi(2), mi(0), 9);
+    m.set(2, 0, Some(9));
+    let x: u8 = kani::any();
+    kani::assume(x < 3);
+    let w = g.remove_node(mi(x));
+    assert!(w == x, "remove_node returns the node weight");
+    m.remove_node(x as usize);
+    if G == 0 {
+        assert!(g.node_count() == 2);
+        assert!(g.edge_count() == m.edge_count(), "edge_count after removing an endpoint");
+    }
+    let y = g.add_node(33);
+    assert!(y.index() < 3 || y.index() == 3, "new id is the vacancy or the next one");
+    assert!(!m.node[y.index()], "a new node never receives a live id");
+    m.node[y.index()] = true;
+    let q: u8 = kani::any();
+    let r: u8 = kani::any();
+    kani::assume(q < 4 && r < 4);
+    if G == 1 {
+        assert!(g.has_edge(mi(q), mi(r)) == m.adj[q as usize][r as usize].is_some(), "a reused id starts with no incident edges; other edges untouched");
+    }
+    kani::cover!(x == 1, "removed the node with the self-loop");
+    kani::cover!(true, "end of harness reached");
+}
+
+// TIER: thorough BOUNDS: 3 nodes, edges 0->1, 1->1, 2->0; remove_node(sym); edge_count; add_node (id reuse); Directed
+#[kani::proof]
+#[kani::unwind(12)]
+fn c04_remove_node_counts_di() {
+    sc_remove_node::<Directed, 0>()
+}
+// TIER: thorough BOUNDS: same; has_edge(sym,sym) after id reuse; Directed
+#[kani::proof]
+#[kani::unwind(12)]
+fn c04_remove_node_edges_di() {
+    sc_remove_node::<Directed, 1>()
+}
+// TIER: thorough BOUNDS: same; has_edge(sym,sym) after id reuse; Undirected
+#[kani::proof]
+#[kani::unwind(12)]
+fn c04_remove_node_edges_un() {
+    sc_remove_node::<Undirected, 1>()
+}
